@@ -146,6 +146,8 @@ func c10Streams(seed int64) []*c10Stream {
 					cuts = append(cuts, e+4) // exactly after the next record's length field
 				case 2:
 					cuts = append(cuts, e-3)
+				case 3:
+					cuts = append(cuts, e+1+i%3) // one to three bytes into the next record's length field
 				}
 			}
 			if spanning {
